@@ -729,6 +729,24 @@ def _working_hours_by_pattern(ctx, wh, m, s_, e_, eval_points):
 
 def _after_working_hours(ctx, repo, wh, dflt):
     onshift = repo.func("ResourceScenario.onShift")
+    # ---------------------------------------------------------------- R02.5 (cont.) the project's slot table is opened by the default calendar itself:
+    # every `table[i] = None` (slot open) in Project.initScoreboards is decided by _isDefaultWorkingTime of that slot's date -- not by a
+    # second classification of the slot (its position in the day, say), which is only right for projects that start at midnight UTC
+    isb = repo.func("Project.initScoreboards")
+    fdi = ctx.dep.of(isb)
+    opens = [(atoms, node) for fld in ("scoreboard", "scoreboardNoLeaves") for (atoms, node, tgt) in heap_writes(ctx, isb, fld)
+             if isinstance(node.ast, ast.Assign) and isinstance(node.ast.value, ast.Constant) and node.ast.value.value is None
+             and isinstance(node.ast.targets[0], ast.Subscript)]
+    if not opens:
+        raise AnchorMissing("Project.initScoreboards: no write that opens a slot (table[i] = None) found")
+    for atoms, node in opens:
+        d = full(atoms) | {a.lstrip("~") for a in fdi.ctl_atoms(node)}
+        ok = "call:_isDefaultWorkingTime" in d and "call:idxToDate" in d
+        ctx.ob("R02.5", f"{isb.qual}: {norm(node.ast)} decided by the default calendar", (isb, node.ast), ok,
+               "the slot is opened iff _isDefaultWorkingTime(idxToDate(i))" if ok else
+               "a slot of the project table is opened without asking the default calendar about that slot's date: a second classification "
+               "(by the slot's position in the day / week) agrees with it only for projects that start at midnight on the assumed weekday",
+               key=key_of("R02.5", isb, None, "opened by default calendar " + norm(node.ast.targets[0])))
     # ---------------------------------------------------------------- R02.6
     fdw = ctx.dep.of(wh)
     for n in own_nodes(wh):
